@@ -7,7 +7,7 @@
    (ball), u = 2^-prec: the returned point lies within 1 + 3u of the origin.  Statement only; proofs in Proofs/UnitNormFl.v.        *)
 From Coq Require Import ZArith Bool Reals.
 From Flocq Require Import Core.Core IEEE754.BinarySingleNaN.
-From RD Require Import Proofs.AffineFl Proofs.UnitNormFl.
+From RD Require Import Proofs.AffineFl Proofs.UnitNormFl Gen.FlProg.
 Open Scope R_scope.
 
 Theorem C12_accept_fl_def : forall prec emax (Hp : Prec_gt_0 prec) (Hpe : Prec_lt_emax prec emax) (x1 x2 x3 : binary_float prec emax),
@@ -57,6 +57,13 @@ Theorem C12_ball_accept_fl_complete : forall prec emax (Hp : Prec_gt_0 prec) (Hp
   ball_accept_fl prec emax Hp Hpe x1 x2 x3 = true.
 Proof. exact ball_accept_fl_complete. Qed.
 
+(* ---- tie to the source: the conditions of `if … { break; }` in unit_disc.rs / unit_ball.rs as read off /repo on every run
+   (Gen/FlProg.v, tools/flprog.py) ARE the programs the theorems speak about. *)
+Theorem C12_fl_source : forall prec emax (Hp : Prec_gt_0 prec) (Hpe : Prec_lt_emax prec emax) (x1 x2 x3 : binary_float prec emax),
+  src_unit_disc_accept prec emax Hp Hpe x1 x2 = disc_accept_fl prec emax Hp Hpe x1 x2 /\
+  src_unit_ball_accept prec emax Hp Hpe x1 x2 x3 = ball_accept_fl prec emax Hp Hpe x1 x2 x3.
+Proof. intros. split; reflexivity. Qed.
+
 (* non-vacuity: binary64 and binary32 meet the format hypotheses *)
 Example C12_fl_binary64 : forall x1 x2 : binary_float 53 1024,
   is_finite x1 = true -> is_finite x2 = true -> Rabs (B2R x1) <= 1 -> Rabs (B2R x2) <= 1 ->
@@ -74,3 +81,4 @@ Print Assumptions C12_ball_accept_fl_norm.
 Print Assumptions C12_disc_sum_fl_value.
 Print Assumptions C12_disc_accept_fl_complete.
 Print Assumptions C12_ball_accept_fl_complete.
+Print Assumptions C12_fl_source.
